@@ -116,6 +116,10 @@ def run(R):
         check_copy(c, repo)
     with R.clause('D5', 'ONCE', floor=5, desc='compiled pattern lists stay aligned 1:1 with the caller\'s list') as c:
         check_alignment(c, repo)
+    with R.clause('D6', 'COVER', floor=8, desc='no earlier occurrence is skipped: look-back and freshlen cover the searched text (shared with C03-D1/D3)') as c:
+        from .c03 import check_find_offset, check_freshlen
+        check_find_offset(c, repo)
+        check_freshlen(c, repo)
 
 
 # ---------------------------------------------------------------------------
@@ -215,6 +219,7 @@ def check_search(c2, c3, repo, ctor, f, kind):
     c2.need(len(cdefs) == 1, 'candidate %s assigned %d times in the loop' % (cand, len(cdefs)))
     cv = cdefs[0].value
     validvar, validkind, matchvar = None, None, None
+    mdefs = []
     if kind == 'string':
         ok = isinstance(cv, ast.Call) and callee_last(cv) == 'find' and is_name(cv.func.value, buf) \
             and cv.args and is_name(cv.args[0], pat)
@@ -232,6 +237,25 @@ def check_search(c2, c3, repo, ctor, f, kind):
             c2.check(okm, f, mdefs[0] if mdefs else cdefs[0], 'the match object comes from <pattern>.search(%s, ...)' % buf,
                      kind='ast', tag='match-src')
             validvar, validkind = matchvar, 'none'
+    # the range searched for each pattern must not depend on what earlier patterns matched
+    scall = cv if kind == 'string' else (mdefs[0].value if mdefs else None)
+    if isinstance(scall, ast.Call):
+        maxargs = 2
+        c2.check(len(scall.args) <= maxargs and not scall.keywords, f, scall,
+                 'each pattern is searched up to the END of the buffer (no end position: an occurrence of a later-listed pattern that starts earlier '
+                 'but ends later than the current best must still be found)', witness=norm(scall), kind='ast', tag='no-end-bound')
+        used = set(x.id for a in scall.args for x in ast.walk(a) if isinstance(x, ast.Name))
+        blk = None
+        for p_ in parent_chain(up):
+            if isinstance(p_, (ast.If, ast.For)):
+                blk = p_.body if any(s_ is up for s_ in p_.body) else None
+                break
+        carried_now = set()
+        for s_ in (blk or []):
+            carried_now.update(assigned_names(s_))
+        dep = sorted(used & carried_now)
+        c2.check(not dep, f, scall, 'the search range of a pattern does not depend on the matches found for earlier patterns',
+                 witness='arguments use %s, which the update block assigns' % dep if dep else None, kind='flow', tag='range-independent')
     # guards governing the update: enclosing ifs + earlier `if T: continue`
     guards = []      # (test expr, required truth)
     node = up
@@ -490,6 +514,10 @@ MUTANTS = [
     ('enumerate-start1', 'expect', "        for n, s in enumerate(patterns):", "        for n, s in enumerate(patterns, 1):", 'D1'),
     ('re-enumerate-own', 'expect', "        for n, s in enumerate(patterns):\n            if s is EOF:\n                self.eof_index = n\n                continue\n            if s is TIMEOUT:\n                self.timeout_index = n\n                continue\n            self._searches.append((n, s))",
      "        for n, s in enumerate(patterns):\n            if s is EOF:\n                self.eof_index = n\n                continue\n            if s is TIMEOUT:\n                self.timeout_index = n\n                continue\n            self._searches.append((s, n))", 'D1'),
+]
+MUTANTS += [
+    ('re-shrinking-end', 'expect', "            match = s.search(buffer, searchstart)\n", "            match = s.search(buffer, searchstart, len(buffer) if first_match is None else the_match.end())\n", 'D2'),
+    ('existing-freshlen-buf', 'expect', "        freshlen = before_len\n", "        freshlen = buf_len\n", 'D6'),
 ]
 PRESERVING = [
     ('str-gt-flip', 'expect', "n < first_match):\n                first_match = n\n                best_index, best_match", "first_match > n):\n                first_match = n\n                best_index, best_match"),
